@@ -17,7 +17,7 @@ OBLIGATIONS = ["NiftyVerif.C29." + t for t in (
     "wiener_excitation_response", "wiener_cov", "wiener_cov_const", "wiener_AAt",
     "iwp_transition", "iwp_step_noise", "iwp_state_indep", "iwp_cov_recursion", "iwp_cross_cov", "iwp_cov_closed_form",
     "scalarGM_var_step", "scalarGM_cov_lag", "ou_stationary", "ou_var_step", "ouDrift_prod", "ou_cov", "ou_cov_const",
-    "generic_eq_wiener", "generic_eq_scalar", "generic_eq_iwp")]
+    "generic_eq_wiener", "generic_eq_scalar", "generic_eq_iwp", "generic_cov_recursion", "generic_cross_cov")]
 RULE = ("one case = (process in wiener/iwp/ou/generic, grid dt (non-uniform or scalar), sigma/gamma/asperity scalar or "
         "per-step, initial state, evaluation point xi, direct function or GaussMarkovProcess wrapper); class E = "
         "perfect-square dt and dyadic parameters (exact equality with the rational model), class T = random floats "
@@ -51,7 +51,7 @@ def _gen_seq(rng, n, cls, lo, hi, square=False, allow_scalar=True):
     return [rs(one()) for _ in range(n)], False
 
 
-def gen_case(rng, quick=True, proc=None, wrapper=None, x0_mode=None, arrays=False):
+def gen_case(rng, quick=True, proc=None, wrapper=None, x0_mode=None, arrays=False, sigma_prior=None):
     proc = proc or rng.choice(["wiener", "wiener", "iwp", "iwp", "ou", "ou", "gm"])
     cls = rng.choice(["E", "T"]) if proc in ("wiener", "gm") else "T"
     n = rng.randint(2 if arrays else 1, 5 if quick else 9)
@@ -71,6 +71,8 @@ def gen_case(rng, quick=True, proc=None, wrapper=None, x0_mode=None, arrays=Fals
         return c
     dt, dts = _gen_seq(rng, n, cls, Fraction(1, 4), Fraction(2), square=True, allow_scalar=not arrays)
     sg, sgs = _gen_seq(rng, n, cls, Fraction(1, 4), Fraction(2), allow_scalar=not arrays)
+    if sigma_prior:
+        sg, sgs = [sg[0]] * n, True
     c.update(dt=dt, dt_scalar=dts, sigma=sg, sigma_scalar=sgs)
     d = 2 if proc == "iwp" else 1
     if proc == "iwp":
@@ -90,6 +92,10 @@ def gen_case(rng, quick=True, proc=None, wrapper=None, x0_mode=None, arrays=Fals
         c["x0_mode"] = x0_mode or rng.choice(["fixed", "prior"] + (["stationary"] * 2 if proc == "ou" else []))
         c["x0_std"] = [rs(dyadic(rng, 0.25, 2, 2)) for _ in range(d)]
         c["xi_x0"] = [rs(dyadic(rng, -2, 2, 2)) for _ in range(d)]
+        # amplitude given as a (mean, std) log-normal prior: a LazyModel kwarg of the wrapper (conditional covariance)
+        if c["sigma_scalar"] and (sigma_prior or (sigma_prior is None and rng.random() < 0.5)):
+            c.update(sigma_prior=True, sigma_mean=rs(dyadic(rng, 0.5, 2, 2)), sigma_std=rs(dyadic(rng, 0.25, 1, 2)),
+                     xi_sigma=rs(dyadic(rng, -1, 1, 2)))
     c["x0"] = [rs(dyadic(rng, -2, 2, 2)) for _ in range(d)]
     if cls == "E":
         c["xi"] = [[rs(dyadic(rng, -2, 2, 2)) for _ in range(d)] for _ in range(n)]
@@ -145,6 +151,10 @@ def _real_fn(c):
         gamma = _param(c, "gamma", jnp)
         return lambda xi: gm.ornstein_uhlenbeck_process(xi[:, 0], x0v[0], sigma, gamma, dt)
     # ---- GaussMarkovProcess wrappers
+    extra = {}
+    if c.get("sigma_prior"):
+        sigma = (fl(c["sigma_mean"]), fl(c["sigma_std"]))
+        extra["p_sigma"] = jnp.array(fl(c["xi_sigma"]))
     std = fll(c["x0_std"])
     mode = c["x0_mode"]
     kw = {}
@@ -166,10 +176,22 @@ def _real_fn(c):
         m = gm.OrnsteinUhlenbeckProcess(sigma, gamma, dt, name="p", x0=x0, **kw)
         sh = lambda xi: xi[:, 0]
     if mode == "fixed":
-        return lambda xi: m({"p": sh(xi)}).reshape(-1)
+        return lambda xi: m({"p": sh(xi), **extra}).reshape(-1)
     if proc == "iwp":
-        return lambda xi, xx: m({"p": sh(xi), "p_x0": xx}).reshape(-1)
-    return lambda xi, xx: m({"p": sh(xi), "p_x0": xx[0]}).reshape(-1)
+        return lambda xi, xx: m({"p": sh(xi), "p_x0": xx, **extra}).reshape(-1)
+    return lambda xi, xx: m({"p": sh(xi), "p_x0": xx[0], **extra}).reshape(-1)
+
+
+def _sigma_values(c):
+    """per-step amplitudes as floats; for a log-normal amplitude prior the value realised by the real prior model"""
+    if c.get("sigma_prior"):
+        jax_setup()
+        import jax.numpy as jnp
+        from nifty.re.prior import LogNormalPrior
+        pr = LogNormalPrior(fl(c["sigma_mean"]), fl(c["sigma_std"]), name="p_sigma")
+        v = float(pr({"p_sigma": jnp.array(fl(c["xi_sigma"]))}))
+        return np.full(c["N"], v)
+    return np.array(fll(c["sigma"]))
 
 
 def _has_x0_exc(c):
@@ -238,7 +260,7 @@ def reference_cov(c):
             Fs.append(F)
         return _assemble(Ps, Fs, d)
     dt = np.array(fll(c["dt"]))
-    sg = np.array(fll(c["sigma"]))
+    sg = _sigma_values(c)
     mode = c.get("x0_mode", "fixed") if c.get("wrapper") else "fixed"
     std = np.array(fll(c["x0_std"])) if c.get("wrapper") else None
     if proc == "wiener":
@@ -293,7 +315,7 @@ def closed_form_cov(c):
     if len(set(c["sigma"])) != 1:
         return None
     n = c["N"]
-    s2 = fl(c["sigma"][0]) ** 2
+    s2 = float(_sigma_values(c)[0]) ** 2
     t = np.concatenate([[0.0], np.cumsum(fll(c["dt"]))])
     if c["proc"] == "wiener":
         return s2 * np.minimum.outer(t, t)
@@ -407,7 +429,7 @@ def _flat_model(c, out):
 
 def run(ctx):
     rng = ctx.rng
-    ncases = ctx.n(24, 400)
+    ncases = ctx.n(8, 400)
     cases = [gen_case(rng, ctx.quick) for _ in range(ncases)]
     # make sure every process is present in every mode, with genuinely time-varying parameters
     cases.append(gen_case(rng, ctx.quick, proc="gm"))
@@ -415,6 +437,8 @@ def run(ctx):
         cases.append(gen_case(rng, ctx.quick, proc=p, wrapper=False, arrays=True))
         for mode in ("fixed", "prior") + (("stationary",) if p == "ou" else ()):
             cases.append(gen_case(rng, ctx.quick, proc=p, wrapper=True, x0_mode=mode, arrays=True))
+        cases.append(gen_case(rng, ctx.quick, proc=p, wrapper=True, sigma_prior=True,
+                              x0_mode="stationary" if p == "ou" else "prior"))
     # ---- model requests: one affine evaluation + one per basis excitation (x0 = 0) ⇒ the model's A
     lines, index = [], []
     for ci, c in enumerate(cases):
@@ -445,7 +469,7 @@ def run(ctx):
         ctx.stat(f"cls={c['cls']}")
         ctx.stat(f"N={c['N']}")
         if c.get("wrapper"):
-            ctx.stat(f"wrapper:{c['proc']}:{c['x0_mode']}")
+            ctx.stat(f"wrapper:{c['proc']}:{c['x0_mode']}" + (":sigma_prior" if c.get("sigma_prior") else ""))
         for k in ("dt", "sigma", "gamma"):
             if k in c:
                 ctx.stat(f"{k}:{'scalar' if c[k + '_scalar'] else 'array'}")
